@@ -112,4 +112,11 @@ def xyzEvalFlat (px py pz : List R) (ts : List R) : List R :=
 def xyzDerEvalFlat (n : Nat) (px py pz : List R) (ts : List R) : List R :=
   xyzEvalFlat (derN n px) (derN n py) (derN n pz) ts
 
+/-- `numpy.polynomial.polynomial.polyder(c, m)` on integer coefficients (the callee of `Poly1DType.derivative`; helper of the
+    regenerated code in Gen/PolyLoops.lean): `m` derivatives, one zero coefficient kept when nothing is left, negative `m` refused -/
+def polyder (c : List Int) (m : Int) : Except String (List Int) :=
+  if m < 0 then throw "ValueError" else
+    let d := derN m.toNat c
+    pure (if d = [] then [0] else d)
+
 end Sarpy.Spec.Poly
